@@ -152,6 +152,7 @@ def work(item):
         for sig, msg in monitor(lay, h, life, hooks):
             res.violation(sig, f"layout {lay['name']}: {msg}", dict(engine="robot", layout=lay, history=h, source=R.robot_source(lay)))
         res.outcome(core.stable_hash([lay["name"], [r[0] for r in life.log]]))
+        R.visit_history(res, lay, h)
         if not res.samples and len(h) >= 3:
             res.sample(dict(layout=lay["name"], history=h, log=[r[0] for r in life.log]))
     return res
@@ -178,7 +179,6 @@ def main(tier, seed):
     res = core.Result()
     for d in core.parallel("mc.props.c06", "work", items, seed=seed):
         res.merge(d)
-    res.states = len(L) * 4 * 5
     res.bounds.update(three_word_history_depth=6 if tier == "quick" else 9, two_word_history_depth=8 if tier == "quick" else 11, history_depth=depth, layouts=len(L), histories_per_layout=len(hs))
     rule = (
         "every driver-station history up to the stated depth (boot word + one word per iteration, including direct switches between "
